@@ -391,7 +391,12 @@ pub fn gen(rng: &mut Rng, size: usize) -> Value {
             if rng.chance(2, 3) { mutate(rng, &mut b); }
             b
         }
-        7 => crate::doc::write_doc(&crate::c09::gen_hermes_doc(rng, size)),
+        7 if rng.chance(1, 2) => crate::doc::write_doc(&crate::c09::gen_hermes_doc(rng, size)),
+        7 => { // well-formed documents of the map family: long lines, range flags, > 64 sources/names, every VLQ digit class
+            let m = if rng.chance(1, 2) { crate::c04::gen_c07(rng, size) } else { { let wr = rng.chance(1, 2); crate::c01::gen_model(rng, size, wr) } };
+            let d = if m.get("doc").is_some() { m["doc"].clone() } else { crate::maps::model_doc(&crate::maps::model_from_case(&m)) };
+            crate::doc::write_doc(&crate::doc::normalise_doc(&d))
+        }
         _ => { // fault documents with several random faults incl. extreme numbers
             let kind = *rng.pick(&["regular", "hermes", "index"]);
             let keys = ["version", "sources", "sourceRoot", "sourcesContent", "mappings", "ignoreList", "sections", "x_facebook_sources", "rangeMappings", "debug_id", "file", "names"];
